@@ -24,7 +24,7 @@ def finish (c : Cur) (status : String) (tot : Tot) : IO Tot := do
     IO.println s!"DIV family={c.fam} seed={c.seed} {msg}"
     return { tot with div := tot.div + 1 }
   | .ok rs =>
-    let endMsg := if status == "ok" then c.m.atEnd rs.st else none
+    let endMsg := if status == "ok" then rs.endCheck else none
     match endMsg with
     | some msg =>
       IO.println s!"DIV family={c.fam} seed={c.seed} event #{rs.nev} (end of trace): {msg}"
